@@ -101,7 +101,7 @@ def interval(F, name, integer=False):
     a, b = (F.int(name + "0"), F.int(name + "1")) if integer else (F.real(name + "0"), F.real(name + "1"))
     F.assume(R(a) <= R(b))
     if integer:
-        F.assume(T(a) >= 0)
+        F.assume(z3.And(T(a) >= 0, T(b) >= 1))  # time intervals of the schema end at a positive step
     return F.new(Interval, a, b)
 
 
@@ -161,7 +161,7 @@ def mk_obstacles(F, content):
     if "setbased" in content:
         out.append(_setbased(F, rect))
     if "phantom" in content:
-        out.append(F.new(PhantomObstacle, 13, F.new(SetBasedPrediction, 0, [F.new(Occupancy, 0, F.new(Polygon, poly2(F, "ph_v", 3)))])))
+        out.append(F.new(PhantomObstacle, 13, F.new(SetBasedPrediction, 1, [F.new(Occupancy, 1, F.new(Polygon, poly2(F, "ph_v", 3)))])))
     if "environment" in content:
         out.append(F.new(EnvironmentObstacle, 14, ObstacleType.BUILDING, F.new(Polygon, poly2(F, "env_v", 3))))
     return out
@@ -193,7 +193,7 @@ def _unused(F):
     occs = [F.new(Occupancy, 1, F.new(Rectangle, positive(F, "sb_o1l"), positive(F, "sb_o1w"), pos(F, "sb_o1c"), ang(F, "sb_o1o"))),
             F.new(Occupancy, 2, F.new(Circle, positive(F, "sb_o2r"), pos(F, "sb_o2c")))]
     dyn2 = F.new(DynamicObstacle, 12, ObstacleType.PEDESTRIAN, F.new(Circle, positive(F, "d2_r")), initial_state(F, "d2_i_", full=False), F.new(SetBasedPrediction, 1, occs))
-    ph = F.new(PhantomObstacle, 13, F.new(SetBasedPrediction, 0, [F.new(Occupancy, 0, F.new(Polygon, poly2(F, "ph_v", 3)))]))
+    ph = F.new(PhantomObstacle, 13, F.new(SetBasedPrediction, 1, [F.new(Occupancy, 1, F.new(Polygon, poly2(F, "ph_v", 3)))]))
     env = F.new(EnvironmentObstacle, 14, ObstacleType.BUILDING, F.new(Polygon, poly2(F, "env_v", 3)))
     return [static, dyn, dyn2, ph, env]
 
